@@ -116,6 +116,18 @@ package beacon
 //@   requires s != nil
 //@   ensures r == s.BeaconState
 
+// envelope -> signed block (C14): the block of the body's fork, with the envelope's header fields and signature
+//@ func EnvelopeToSignedBeaconBlock(benv) (r, err)
+//@   property C14
+//@   panics off
+//@   requires benv != nil
+//@   ensures phase0: err == nil && isptrto(old(benv.Body), phase0.BeaconBlockBody) ==> isptrto(r, phase0.SignedBeaconBlock) && (let b := unboxptr(r, phase0.SignedBeaconBlock) in b.Signature == old(benv.Signature) && b.Message.Slot == old(benv.Slot) && b.Message.ProposerIndex == old(benv.ProposerIndex) && b.Message.ParentRoot == old(benv.ParentRoot) && b.Message.StateRoot == old(benv.StateRoot))
+//@   ensures altair: err == nil && isptrto(old(benv.Body), altair.BeaconBlockBody) ==> isptrto(r, altair.SignedBeaconBlock) && (let b := unboxptr(r, altair.SignedBeaconBlock) in b.Signature == old(benv.Signature) && b.Message.Slot == old(benv.Slot) && b.Message.ProposerIndex == old(benv.ProposerIndex) && b.Message.ParentRoot == old(benv.ParentRoot) && b.Message.StateRoot == old(benv.StateRoot))
+//@   ensures bellatrix: err == nil && isptrto(old(benv.Body), bellatrix.BeaconBlockBody) ==> isptrto(r, bellatrix.SignedBeaconBlock) && (let b := unboxptr(r, bellatrix.SignedBeaconBlock) in b.Signature == old(benv.Signature) && b.Message.Slot == old(benv.Slot) && b.Message.ProposerIndex == old(benv.ProposerIndex) && b.Message.ParentRoot == old(benv.ParentRoot) && b.Message.StateRoot == old(benv.StateRoot))
+//@   ensures capella: err == nil && isptrto(old(benv.Body), capella.BeaconBlockBody) ==> isptrto(r, capella.SignedBeaconBlock) && (let b := unboxptr(r, capella.SignedBeaconBlock) in b.Signature == old(benv.Signature) && b.Message.Slot == old(benv.Slot) && b.Message.ProposerIndex == old(benv.ProposerIndex) && b.Message.ParentRoot == old(benv.ParentRoot) && b.Message.StateRoot == old(benv.StateRoot))
+//@   ensures deneb: err == nil && isptrto(old(benv.Body), deneb.BeaconBlockBody) ==> isptrto(r, deneb.SignedBeaconBlock) && (let b := unboxptr(r, deneb.SignedBeaconBlock) in b.Signature == old(benv.Signature) && b.Message.Slot == old(benv.Slot) && b.Message.ProposerIndex == old(benv.ProposerIndex) && b.Message.ParentRoot == old(benv.ParentRoot) && b.Message.StateRoot == old(benv.StateRoot))
+//@   ensures electra: err == nil && isptrto(old(benv.Body), electra.BeaconBlockBody) ==> isptrto(r, electra.SignedBeaconBlock) && (let b := unboxptr(r, electra.SignedBeaconBlock) in b.Signature == old(benv.Signature) && b.Message.Slot == old(benv.Slot) && b.Message.ProposerIndex == old(benv.ProposerIndex) && b.Message.ParentRoot == old(benv.ParentRoot) && b.Message.StateRoot == old(benv.StateRoot))
+
 // BEGIN C18 generated (tools/gen_c18.py in /verif)
 // cancelled: a context cancelled before the call makes it fail; surfaced: a cancellation observed by a poll
 // during the call makes it fail; polled: success after a poll means the context was not cancelled at entry.
